@@ -173,6 +173,8 @@ def escapedComment(data: Union[bytes, str]) -> bytes:
     To ensure consistent parsing and valid output the sequence is replaced with C{--&gt;}.
     Furthermore, whitespace is added when a comment ends in a dash. This is done to break
     the connection of the ending C{-} with the closing C{-->}.
+    An HTML parser also ends a comment at C{--!>}, and at a C{>} or C{->} which
+    directly follows the opening C{<!--}; the C{>} of these is replaced as well.
 
     @param data: The string to escape.
 
@@ -181,7 +183,11 @@ def escapedComment(data: Union[bytes, str]) -> bytes:
     """
     if isinstance(data, str):
         data = data.encode("utf-8")
-    data = data.replace(b"-->", b"--&gt;")
+    data = data.replace(b"-->", b"--&gt;").replace(b"--!>", b"--!&gt;")
+    if data.startswith(b">"):
+        data = b"&gt;" + data[1:]
+    elif data.startswith(b"->"):
+        data = b"-&gt;" + data[2:]
     if data and data[-1:] == b"-":
         data += b" "
     return data
